@@ -64,3 +64,21 @@ func ECHServerKeys(sendAsRetry bool, keys ...*ECHKey) []tls.EncryptedClientHello
 	}
 	return out
 }
+
+// ECHUnknownVersionEntry is a list entry of a version no client knows (to be skipped).
+func ECHUnknownVersionEntry(n int) []byte {
+	body := make([]byte, n)
+	for i := range body {
+		body[i] = byte(0xA0 + i%7)
+	}
+	return append(append(be16(0xfe0a), be16(uint16(n))...), body...)
+}
+
+// ECHConfigListRaw serialises already encoded entries into an ECHConfigList.
+func ECHConfigListRaw(entries ...[]byte) []byte {
+	var body []byte
+	for _, e := range entries {
+		body = append(body, e...)
+	}
+	return append(be16(uint16(len(body))), body...)
+}
